@@ -123,10 +123,10 @@ V(b) == IF b THEN "ok" ELSE "err"
 \* ---- structure edits (they act on the structure held by the master key)
 AddDimV(g, d) == V(d \notin DOMAIN g.st)
 AddDim(g, d, kind) ==
-    [g EXCEPT !.st = @ @@ (d :> [kind |-> kind, order |-> <<>>]), !.edited = TRUE]
+    [g EXCEPT !.st = @ @@ (d :> [kind |-> kind, order |-> <<>>]), !.edited = (@ \/ g.updates > 0)]
 
 DelDimV(g, d) == V(d \in DOMAIN g.st)
-DelDim(g, d) == [g EXCEPT !.st = Without(@, {d}), !.edited = TRUE]
+DelDim(g, d) == [g EXCEPT !.st = Without(@, {d}), !.edited = (@ \/ g.updates > 0)]
 
 \* after = "" encodes "no after argument"
 AddAttrV(g, d, n, after) ==
@@ -141,22 +141,22 @@ AddAttr(g, d, n, hint, after) ==
              ELSE Len(o) + 1
     IN [g EXCEPT !.st[d].order = InsertAt(o, p, u),
                  !.attrs = @ @@ (u :> [d |-> d, n |-> n, h |-> hint, dis |-> FALSE]),
-                 !.nextUid = u + 1, !.edited = TRUE]
+                 !.nextUid = u + 1, !.edited = (@ \/ g.updates > 0)]
 
 DelAttrV(g, d, n) == V(UidOf(g.st, g.attrs, d, n) # 0)
 DelAttr(g, d, n) ==
     LET u == UidOf(g.st, g.attrs, d, n)
-    IN [g EXCEPT !.st[d].order = RemoveAt(@, Pos(@, u)), !.edited = TRUE]
+    IN [g EXCEPT !.st[d].order = RemoveAt(@, Pos(@, u)), !.edited = (@ \/ g.updates > 0)]
 
 RenameV(g, d, n, to) == V(UidOf(g.st, g.attrs, d, n) # 0 /\ UidOf(g.st, g.attrs, d, to) = 0)
 Rename(g, d, n, to) ==
     LET u == UidOf(g.st, g.attrs, d, n)
-    IN [g EXCEPT !.attrs[u].n = to, !.edited = TRUE]
+    IN [g EXCEPT !.attrs[u].n = to, !.edited = (@ \/ g.updates > 0)]
 
 DisableV(g, d, n) == V(UidOf(g.st, g.attrs, d, n) # 0)
 Disable(g, d, n) ==
     LET u == UidOf(g.st, g.attrs, d, n)
-    IN [g EXCEPT !.attrs[u].dis = TRUE, !.edited = TRUE]
+    IN [g EXCEPT !.attrs[u].dis = TRUE, !.edited = (@ \/ g.updates > 0)]
 
 \* ---- master key update
 BornDisabled(g) == \E c \in Combos(g.st) \ DOMAIN g.msk : DisabledOf(g.attrs, c)
